@@ -21,6 +21,9 @@ fn gen_any_dict(rng: &mut Rng, empty_scorer: bool) -> (GenDict, Vec<Op>) {
         }
         if u.is_empty() { gd.user = None; }
     }
+    // 1 dictionary in 8 has a word whose surface is U+10FFFF, the largest code point (the trie's code table then reaches
+    // 0x110000 entries and the image grows to several MB: such images are not handed to the Coq decoder)
+    if rng.chance(1, 8) { gd.sys.push(Row { surface: "\u{10FFFF}".to_string(), lid: 0, rid: 0, cost: 7, feature: "MAX,f".to_string() }); }
     let kind = if empty_scorer { 1 + rng.below(2) } else { rng.below(3) };
     if kind >= 1 && gd.nright >= 2 && gd.nleft >= 2 {
         let big = rng.chance(1, 6);
@@ -164,7 +167,7 @@ pub fn run(prop: &str, seed: u64, n: usize, outdir: &str, _corpus: Option<&str>)
         let mut img = vec![];
         let count = d.write(&mut img).unwrap();
         // the model decodes the first few images of a run (an image is ~263 kB)
-        let give_image = !cfg!(target_feature = "avx2") && (with_image < 2 || (thorough && with_image < 9));
+        let give_image = !cfg!(target_feature = "avx2") && img.len() < 1_000_000 && (with_image < 2 || (thorough && with_image < 9));
         let img_t = if give_image { with_image += 1; format!("(Some {})", cbytes(&img)) } else { "None".to_string() };
         let human = format!(
             "connector={} user={:?} pre_ops={:?} image_len={} char.def={} unk.def={} lex.csv={} matrix.def={} bigram={:?}",
